@@ -415,18 +415,19 @@ def check_bits(pfp, pfn, us, fs):
     exp = Counter()
     fl = list(fs)
     out = []
+    ambiguous = any(abs(u - x) < 1e-15 for u in us for x in c[:-1])
     for u in us:
-        i = min(int(np.searchsorted(c, u, side="left")), len(keys) - 1)
+        i = min(int(np.searchsorted(c, u, side="right")), len(keys) - 1)
         bits = [int(ch) for ch in keys[i]]
-        if keys[i] == "10":
-            out.append(("C20:zero-probability-bitstring-sampled", f"u={u}"))
         if pfp or pfn:
             for j, b in enumerate(bits):
                 x = fl.pop(0)
                 if x < (pfn if b == 1 else pfp):
                     bits[j] = 1 - b
         exp["".join(map(str, bits))] += 1
-    if Counter(got) != exp:
+    if "10" in got and not (pfp or pfn):
+        out.append(("C20:zero-probability-bitstring-sampled", f"u={us}"))
+    if Counter(got) != exp and not ambiguous:
         out.append(("C20:bitstrings-differ-from-probabilities", f"rates ({pfp},{pfn}) u={us} f={fs}: {dict(got)} vs {dict(exp)}"))
     return out + [("@bits", "")]
 
